@@ -73,11 +73,15 @@ class Gen:
         if ctx["fn"] + 1 < ctx["nfn"]:
             choices.append(("call", 2))
         if ctx["loops"] and (pf["abrupt_in_try"] or not ctx.get("in_try")):
-            choices += [("continue", 1)]
-            if not ctx.get("in_switch"):
+            # abrupt exits out of a finally block are rare in hand-written code and rich in bugs
+            wgt = 3 if ctx.get("in_finally") else 1
+            choices += [("continue", wgt)]
+            if not ctx.get("in_switch") and ctx["loops"][-1][0] != 0:
                 # an unlabelled break inside a switch targets the switch (generated as the
-                # case's trailing break), not the loop
-                choices += [("break", 1)]
+                # case's trailing break), not the loop; loop 0 is the harness loop of C02.B
+                choices += [("break", wgt)]
+        if ctx.get("in_catch"):
+            choices.append(("d", 4))
         if ctx.get("lblocks") and (pf["abrupt_in_try"] or not ctx.get("in_try")):
             choices.append(("breakl", 0.7))
         if (pf["abrupt_in_try"] or not ctx.get("in_try")) and (pf["ret_in_finally"] or not ctx.get("in_finally")):
@@ -91,13 +95,16 @@ class Gen:
         if name == "p":
             return {"t": "p", "k": self.nk()}
         if name == "d":
-            return {"t": "d", "k": self.nk(), "form": rng.choice(pf["forms"])}
+            form = rng.choice(pf["forms"])
+            if ctx.get("in_catch") and "null_prop_mid" in pf["forms"] and rng.random() < 0.4:
+                form = "null_prop_mid"      # a throw with operands pending, inside a catch clause
+            return {"t": "d", "k": self.nk(), "form": form}
         if name == "try":
             shape = rng.choice(pf["try_shapes"])
             c2 = dict(ctx, in_try=True)
             node = {"t": "try", "id": self.nid(), "b": self.block(depth + 1, c2), "c": None, "f": None}
             if "c" in shape:
-                c3 = dict(ctx, in_try=ctx.get("in_try") or ("f" in shape), in_catch_with_finally=("f" in shape))
+                c3 = dict(ctx, in_try=ctx.get("in_try") or ("f" in shape), in_catch_with_finally=("f" in shape), in_catch=True)
                 if not pf["throw_in_catch_with_finally"] and "f" in shape:
                     node["c"] = [{"t": "p", "k": self.nk()}]
                 else:
@@ -168,16 +175,21 @@ PROFILES = {
 PROFILE_WEIGHTS = (("full", 3), ("nonative", 2), ("core", 3), ("core_native", 2))
 
 
-def gen_program(rng, profile_name):
+def gen_program(rng, profile_name, outer_loop=False):
+    """outer_loop: the body of f0 is going to be inlined in a harness loop (id 0, variable i0)
+    that its statements may `continue` (C02 part B)."""
     pf = PROFILES[profile_name]
     g = Gen(rng, pf)
     nfn = rng.randrange(1, 4)
     funcs = []
     for i in range(nfn):
-        ctx = {"fn": i, "nfn": nfn, "loops": [], "lblocks": []}
+        ctx = {"fn": i, "nfn": nfn, "loops": [(0, None, False)] if (outer_loop and i == 0) else [], "lblocks": []}
         body = g.block(0, ctx, rng.randrange(2, 5))
         funcs.append({"id": i, "b": body})
-    return {"funcs": funcs, "profile": profile_name}
+    prog = {"funcs": funcs, "profile": profile_name}
+    if outer_loop:
+        prog["outer_loop"] = True
+    return prog
 
 
 # ------------------------------------------------------------------ rendering
@@ -326,11 +338,13 @@ class Model:
         self.n = 0          # dynamic decision counter
         self.log = []
         self.fired_sites = []
+        self.trace = []      # decision site of every dynamic decision, in order
         self.steps = 0
 
     def d(self, s):
         j = self.n
         self.n += 1
+        self.trace.append(s["k"])
         if j in self.faults:
             self.fired_sites.append(s["k"])
             form, k = s["form"], s["k"]
@@ -535,7 +549,9 @@ def model(prog, faults):
         outcome = ["value", "end"]
     except JSThrow as e:
         outcome = ["uncaught", e.desc, e.text]
-    return {"log": m.log, "outcome": outcome, "decisions": m.n, "fired": m.fired_sites}
+    except _Continue:
+        outcome = ["value", "end"]      # `continue` of the harness loop (C02 part B programs)
+    return {"log": m.log, "outcome": outcome, "decisions": m.n, "fired": m.fired_sites, "trace": m.trace}
 
 
 # ------------------------------------------------------------------ execution
@@ -658,12 +674,46 @@ def compare(mo, en, prog):
     return v
 
 
+def handler_sites(prog):
+    """Decision sites that sit lexically inside a catch or finally clause."""
+    out = set()
+
+    def visit(s, path):
+        if s["t"] == "d" and any(p.startswith("try.c") or p == "try.f" for p in path):
+            out.add(s["k"])
+    for f in prog["funcs"]:
+        _walk(f["b"], visit)
+    return out
+
+
+def targeted_pairs(prog, singles, limit):
+    """For a throw at decision j, a second throw at the first later decision that runs inside
+    a catch or finally clause (throw from the catch clause, throw while finally runs)."""
+    hs = handler_sites(prog)
+    out = []
+    if not hs:
+        return out
+    for j in singles:
+        try:
+            tr = model(prog, [j])["trace"]
+        except RuntimeError:
+            continue
+        for j2 in range(j + 1, len(tr)):
+            if tr[j2] in hs:
+                out.append([j, j2])
+                break
+        if len(out) >= limit:
+            break
+    return out
+
+
 def schedules_for(prog, D, rng, tier):
     sch = [[]]
     singles = list(range(D))
     if D > 40:
         singles = sorted(rng.sample(singles, 40))
     sch += [[j] for j in singles]
+    sch += targeted_pairs(prog, singles, 12 if tier == "quick" else 60)
     npairs = 6 if tier == "quick" else 20
     for _ in range(npairs if D >= 1 else 0):
         j1 = rng.randrange(D)
@@ -977,7 +1027,7 @@ def valid(prog):
                 if not rec(s["b"], [], [], fn):
                     return False
         return True
-    return all(rec(f["b"], [], [], f["id"]) for f in prog["funcs"])
+    return all(rec(f["b"], [0] if (prog.get("outer_loop") and f["id"] == 0) else [], [], f["id"]) for f in prog["funcs"])
 
 
 def _resched(c, orig):
